@@ -210,7 +210,7 @@ inductive Op
   | asgT (j i : Nat) | masgT (j i : Nat)
   | mkS (i : Nat) (ty : String) (f : FSpec) | mkS0 (i : Nat) (ty : String) | cpS (j i : Nat) | mvS (j i : Nat)
   | asgS (j i : Nat) | masgS (j i : Nat) | setS (i : Nat) (f : FSpec) | delS (i : Nat) | discS (i : Nat)
-  | blockS (i : Nat) (b : Bool) | blockedSq (i : Nat) | emptySq (i : Nat) | callS (i : Nat) (arg : Nat)
+  | blockS (i : Nat) (b : Bool) | blockedSq (i : Nat) | emptySq (i : Nat) | boolSq (i : Nat) | callS (i : Nat) (arg : Nat)
   | newG (i : Nat) (fl : Option Flavour) | cpG (j i : Nat) | mvG (j i : Nat) | asgG (j i : Nat)
   | masgG (j i : Nat) | delG (i : Nat)
   | conn (k g s : Nat) (first mv : Bool) | connfn (k g : Nat) (f : FSpec) (first : Bool)
@@ -729,6 +729,11 @@ def stepSimple (s : St) (op : Op) : Option (St × String) :=
     match aget s.S i with
     | none => ok s "dead"
     | some v => ok s (bstr v.slot.empty)
+  | .boolSq i =>
+    -- `slot_base::operator bool()`: `rep_ != nullptr` (true also for an invalidated slot that still has its rep)
+    match aget s.S i with
+    | none => ok s "dead"
+    | some v => ok s (bstr v.slot.rep.isSome)
   | .newG i fl =>
     match fl with
     | none => ok s "badtype"
